@@ -229,7 +229,7 @@ def plan(tier, seed):
     out = []
     for i in range(nshards):
         per = (2 if i % 2 == 0 else 1) if tier == "quick" else 6
-        out.append({"shard": i, "programs": per, "instances": ninst, "timeout": 1500 if tier == "quick" else 6000})
+        out.append({"shard": i, "programs": per, "instances": ninst, "timeout": 3000 if tier == "quick" else 9000})
     return out
 
 
